@@ -104,4 +104,22 @@ def gen(tier, seed):
     for st, d in itertools.product([2, 3, -1, -2], [1, 2, -1]):
         hd = f"lo, hi, {st}" if st > 0 else f"hi, lo, {st}"
         add("step", {"st": st, "d": d}, f"do i = {hd}\n  a(i) = a(i+({d})) + b(i)\nend do")
+    # array sections with constant bounds inside the loop body: sections shifted by constants that still overlap,
+    # the loop variable in the other subscript carries (or does not carry) the dependence
+    secs = ["1:2", "2:3", "0:1", "1:3", "0:2:2", "1:1"]
+    for (s1, s2), d in itertools.product(itertools.product(secs[:4], secs[:4]), [0, -1, 1]):
+        if s1 == s2 and d == 0:
+            continue
+        n1 = int(s1[2]) - int(s1[0])
+        n2 = int(s2[2]) - int(s2[0])
+        if n1 != n2:
+            continue
+        add("sect", {"w": s1, "r": s2, "d": d, "pos": 2},
+            f"do i = lo, hi\n  a2({s1},i) = a2({s2},i+({d})) + 1.0_wp\nend do")
+        add("sect", {"w": s1, "r": s2, "d": d, "pos": 1},
+            f"do i = lo, hi\n  a2(i,{s1}) = a2(i+({d}),{s2}) + 1.0_wp\nend do")
+    add("sect", {"v": "stride"}, "do i = lo, hi\n  a2(0:2:2,i) = a2(1:3:2,i-1) + 1.0_wp\nend do")
+    add("sect", {"v": "stride2"}, "do i = lo, hi\n  a2(0:2:2,i) = a2(2:4:2,i-1) + 1.0_wp\nend do")
+    add("sect", {"v": "1d"}, "do i = lo, hi\n  a(1:2) = a(2:3) + b(i)\nend do")
+    add("sect", {"v": "scalar_vs_section"}, "do i = lo, hi\n  a2(1:2,i) = a2(2,i-1) + 1.0_wp\nend do")
     return cases
